@@ -38,6 +38,18 @@ HISTORY = {
     'C16-B': ('analysis-error', 'expiry comparisons are now found through one level of helper methods and a leading `not`'),
     'C17-A': ('caught', 'R-version-in-payload existed'),
     'C17-B': ('caught', 'R-apply-step existed'),
+    'C18-A': ('caught', 'R-majority population check existed (added after C04-B)'),
+    'C18-B': ('missed', 'new rule R-readonly-id-unique'),
+    'C19-A': ('caught', 'R-request-id-unique existed (added after C02-B; same change delivered independently)'),
+    'C19-B': ('caught', 'R-result-publish (per-call result object) existed'),
+    'C20-A': ('analysis-error', 'the edit removed the anchor of the lastResponseTime role and every check failed closed; role binding is now lazy per segment, the role is anchored on the handler, and R-majority flags tables that are filled for read-only nodes too'),
+    'C20-B': ('missed', 'R-hasquorum: the mini interpreter now models set algebra over node categories incl. stale members of the connected set'),
+    'C01r2-A': ('missed', 'R-match-writes extended: on election matchIndex/nextIndex are re-assigned for every node (same change delivered by three independent agents)'),
+    'C01r2-B': ('caught', 'R-tail-drop-monotone existed (C08); now also listed under C06'),
+    'C03r2-A': ('caught', 'R-majority small-domain evaluation existed'),
+    'C03r2-B': ('missed', 'same change as C01r2-A'),
+    'C04r2-A': ('caught', 'R-match-writes existed'),
+    'C04r2-B': ('missed', 'same change as C01r2-A'),
 }
 
 
